@@ -542,6 +542,13 @@ func runFaultCase(r *kernel.Run, fl faultFlow, backend string, sw bool, faults m
 	}
 	n := fc.target.St.NextSeq() - start
 	fc.target.St.ClearFaults()
+	for _, k := range faults {
+		if k == simstore.FaultCrash {
+			// the process comes back: a file back end is re-opened over its directory, nothing else survives
+			fc.target.Restart()
+			break
+		}
+	}
 	srv.NewCtx()
 	node.NewCtx()
 	fc.verify(err)
